@@ -5,6 +5,7 @@ import SkfemVerif.Drv.Asm
 import SkfemVerif.Drv.Poly
 import SkfemVerif.Drv.Integration
 import SkfemVerif.Drv.MeshIO
+import SkfemVerif.Drv.Conformity
 /-
 Registry of driver ops contributed by the per-area files: add an import and `++ xxxOps`.
 -/
@@ -12,6 +13,6 @@ open Lean
 namespace Drv
 
 def allOps : List (String × (Json → Option Json)) :=
-  bcOps ++ quadOps ++ asmOps ++ polyOps ++ integrationOps ++ meshioOps
+  bcOps ++ quadOps ++ asmOps ++ polyOps ++ integrationOps ++ meshioOps ++ conformityOps
 
 end Drv
